@@ -26,6 +26,15 @@ def check(chk, ex, found):
         name = cls + ".load"
         # (1) no handler can swallow an error of np.load or of a member read
         _wrappers.row(chk, name + ":no-exception-handler", not handlers_in(load.node), "try/except inside the loader", found)
+        # (1b) save() hands the *path* to np.savez (numpy then creates / truncates the file itself) and
+        #      opens nothing on its own - otherwise stale bytes of an older, longer file could survive
+        save = c.lookup("save")[0]
+        calls = [n for n in ast.walk(save.node) if isinstance(n, ast.Call)]
+        savez = [n for n in calls if isinstance(n.func, ast.Attribute) and n.func.attr in ("savez", "savez_compressed") and isinstance(n.func.value, ast.Name) and n.func.value.id == "np"]
+        opens = [n for n in calls if (isinstance(n.func, ast.Name) and n.func.id == "open") or (isinstance(n.func, ast.Attribute) and n.func.attr in ("open", "fdopen"))]
+        param = save.node.args.args[1].arg if len(save.node.args.args) > 1 else None
+        ok = len(savez) == 1 and not opens and savez[0].args and isinstance(savez[0].args[0], ast.Name) and savez[0].args[0].id == param
+        _wrappers.row(chk, cls + ".save:np.savez-gets-the-path-itself-and-nothing-else-opens-a-file", ok, None, found)
         # (2) a sketch is returned only after every member save() wrote has been read through the npz file
         a, objs, _ = _glue.good_objects(ex, cls, "t")
         sref, st0 = objs[0]
@@ -40,6 +49,8 @@ def check(chk, ex, found):
             reads = set(e[2] for e in le if e[0] == "npz-read")
             need = set(members) - ({"dtype"} if False else set())
             _wrappers.row(chk, name + ":opens-the-file-with-np.load", len(loads) >= 1, None, found)
+            opened = [lo.state.objs[e[1]]["fields"].get("file") for e in loads]
+            _wrappers.row(chk, name + ":opens-exactly-the-file-it-was-given", all(x is fn for x in opened), [repr(x) for x in opened], found)
             _wrappers.row(chk, name + ":reads-every-saved-member-before-returning", need <= reads, "not read: %s" % sorted(need - reads), found)
             # member reads happen inside the with-block of that np.load (file still open, zip directory parsed)
             kinds = [e[0] for e in le if e[0] in ("with-enter", "with-exit", "npz-read")]
@@ -90,6 +101,20 @@ def prefix_oracle(chk, quick):
                     except Exception:
                         continue
                     return cases, {"key": "%s prefix of %d/%d bytes via %s" % (type(s).__name__, off, len(data), getattr(ld, "__qualname__", ld.__name__)), "observed": "returned %s" % type(r).__name__, "expected": "an exception", "how": "bounded: prefixes of a real file"}
+            # a truncated copy under another name next to the complete file must not load either
+            for nm in ("full.part", "full.tmp", "full", "full.npz.part"):
+                alt = os.path.join(tmp, nm)
+                for off in (0, len(data) // 2, len(data) - 1):
+                    with open(alt, "wb") as f:
+                        f.write(data[:off])
+                    for ld in loaders:
+                        cases += 1
+                        try:
+                            r = ld(alt)
+                        except Exception:
+                            continue
+                        return cases, {"key": "%s: %d-byte prefix stored as %s next to the complete full.npz via %s" % (type(s).__name__, off, nm, getattr(ld, "__qualname__", ld.__name__)), "observed": "returned %s" % type(r).__name__, "expected": "an exception", "how": "bounded: prefixes of a real file"}
+                os.unlink(alt)
             for ld in loaders:
                 r = ld(fn)
                 if type(r) is not type(s):
